@@ -7,6 +7,7 @@ CONSTANTS
   FixEnqueue = FALSE
   FixBatch = TRUE
   LossySend = TRUE
+  HasKeepalive = TRUE
 INVARIANTS TypeOK NoDeadlock
 
 CHECK_DEADLOCK FALSE
